@@ -354,6 +354,45 @@ def check_stopping_criterion(params, out):
     return []
 
 
+def check_discipline(out, scheduler=None):
+    """The resume discipline of proofs/TunerComposeProofs.v ([Dok]) re-implemented on the implementation trace:
+    the scheduler may suggest 'resume t' only while ITS answer to the last delivered result of t was PAUSE and it has
+    not asked to resume t since (never for a trial it answered STOP for, was told completed / failed, or does not
+    know). This is the hypothesis under which c01_resume_discipline excludes the backend's resume assertion."""
+    view = {}
+    for i, ev in enumerate(out["trace"]):
+        k = ev[0]
+        if k == "s_add":
+            view[ev[1]] = "running"
+        elif k == "s_result":
+            view[ev[1]] = {"PAUSE": "paused", "STOP": "stopped"}.get(ev[3], "running")
+        elif k in ("s_complete", "s_error"):
+            view[ev[1]] = "ended"
+        elif k == "s_suggest" and ev[2] is not None and ev[2][0] == "resume":
+            t = ev[2][1]
+            v = view.get(t, "unknown")
+            if v != "paused":
+                return [("the scheduler suggests to resume trial %s, which in its own view is '%s' (event %d of the trace); "
+                         "run() ended with %s" % (t, v, i, out["outcome"][:2]),
+                         dict(check="resume_discipline", view=v, scheduler=scheduler))]
+            view[t] = "running"
+    return []
+
+
+DISC_IMPORTS = ("From Verif Require Import model.Base model.Tuner proofs.TunerProofs proofs.TunerComposeProofs.\n"
+                "Open Scope Q_scope.\n")
+DISC_PRELUDE = "Definition chk_disc (tr : list event) : bool := dok_b (rev tr).\n"
+
+
+def coq_discipline(ctx, tag, traces):
+    """Evaluates the verified boolean checker dok_b on implementation traces; returns indices where it is false."""
+    T = scripted.coq_terms()
+    terms = ["(%s : list event)" % T["trace"](tr) for tr in traces]
+    if not terms:
+        return []
+    return _with_case_dir_retry(lambda: ctx.coq_bad_cases(tag, DISC_IMPORTS, DISC_PRELUDE, "chk_disc", terms, shard=15))
+
+
 def histograms(ctx, case, out):
     p = case["params"]
     ctx.h("n_workers", p["n_workers"])
